@@ -22,6 +22,24 @@ CHECKS = {
  "C14": ("exploration", "runtime differential monitor: parseDescriptors / writeDescriptorsWithLength hooks vs independent descriptor codec; sentinel technique for malformed lengths",
          "Per tag (23 typed, user-defined, unknown, extension with unknown sub-tag) boundary-biased models parsed and written with the struct Length right/0/wrong; emitted length fields checked against emitted bytes; malformed descriptor_length followed by a sentinel descriptor.",
          "Trusts refts/descriptors.go (29 known-answer vectors); models restricted to what the structs can represent; VBI services without line entries compared semantically (any number of reserved bytes is conformant).", "DESIGN.md §4 C14"),
+ "C02": ("exploration", "runtime monitor over NextData on reference-multiplexed streams: per-PID identity/equality oracle from the generating model + reader-position tap for read-ahead and lateness",
+         "Random models (1..8 PIDs, PES bounded/unbounded, multi-section PSI units, pointer_field, stuffing anywhere) and enumeration of every first/last chunk size (thorough: pairs) of selected units; every delivered unit compared with the model, PAT/PMT delivery position checked against the unit's final packet.",
+         "Trusts the reference multiplexer (gen/stream.go + refts); units are packet aligned; PAT completes before the first PMT packet.", "DESIGN.md §4 C02"),
+ "C06": ("fault_enumeration", "packet-level fault injection (duplicate / delete / TEI / DI / AF-only) with a model-based differential oracle against the fault-free output",
+         "Every single-packet duplication (immediate and delayed) and deletion of every generated stream, random multi-fault plans with bursts up to 15, and all 6^7 fault words on a 2-PID micro stream.",
+         "FirstPacket metadata is not compared (header flags are what the faults alter); plans violating the property's precondition are skipped and counted.", "DESIGN.md §4 C06"),
+ "C07": ("exploration", "metamorphic runtime monitor: per-PID output under order-preserving merges, inserted null/AF-only/TEI packets and single-PID corruption vs a canonical merge",
+         "K random and extreme merges per model (clean and damaged PIDs), all 70 / 1680 merges of micro streams, insertions at every position, five corruption kinds confined to one PID.",
+         "PAT completes before PMT packets in every merge; errors are not units.", "DESIGN.md §4 C07"),
+ "C08": ("exploration", "metamorphic runtime monitor: demuxer output under read schedules, reader kinds, auto-detection and 188+k framing vs the baseline configuration; reader tap records the reads actually served",
+         "Fixed chunk sizes (all 1..400 in thorough), random chunks, a cut at every offset of the first 400 bytes, seekable/bufio/plain x explicit/auto, 188+k for k up to 64.",
+         "Inputs respect the auto-detector's documented assumption; plain+auto is judged as suffix + chunk independence.", "DESIGN.md §4 C08"),
+ "C19": ("exploration", "callback taps on PacketSkipper / PacketsParser + differential against the harness-filtered stream and the model's units",
+         "Ten predicate families x both APIs on clean and gapped streams; observer, replacer and failing parsers.",
+         "Parser errors during the end-of-stream drain are logged by the library and not required to surface.", "DESIGN.md §4 C19"),
+ "C20": ("exploration", "runtime monitor: Rewind at every call count, result sequence compared with a fresh Demuxer; reader tap confirms the seek",
+         "Every k in 0..calls (strided for long streams in quick) x three APIs x explicit/auto x repeated rewinds x chunked reads, classified by state at rewind time.",
+         "In-memory seekable reader; streams satisfy the PAT-before-PMT precondition.", "DESIGN.md §4 C20"),
 }
 
 NOT_YET = {}
